@@ -8,7 +8,7 @@ import dbmodel as M
 import iotie
 
 KINDS = ["insert", "insert_multiple", "remove_some", "remove_none", "remove_all_match", "update_some",
-         "update_nochange", "drop", "remove_all", "handle_update", "insert_multiple_bad", "update_raises", "update_shrink", "remove_most", "insert_big_rows"]
+         "update_nochange", "drop", "remove_all", "handle_update", "insert_multiple_bad", "update_raises", "update_shrink", "remove_most", "insert_big_rows", "update_newest_big"]
 BAD = [{"time": 0, "meas": "<undecodable>", "tags": {}, "fields": {}}]
 
 
@@ -26,11 +26,12 @@ def main(tier, seed):
     ck = Check("C12", tier, seed)
     tf = use_impl()
     b = ck.build_proofs("Prop_C12", extra_targets=["Run.vo", "IO.vo"])
-    n_cases = 17 if tier == "quick" else 144
+    n_cases = 16 if tier == "quick" else 144
     cases = iotie.io_cases(seed, n_cases, kinds=KINDS)
     coq_cases, direct_bad, n_pairs, kinds, hard_checked = [], [], 0, {}, 0
     for ci, (hist, op, auto, kind) in enumerate(cases):
         other = ci % 2 == 1      # every second case keeps the temp directory on another filesystem than the database
+        iotie.HARDLINK = ci % 3 == 2      # every third case: the database file has a second hard link (a `cp -l` snapshot) when the operation starts
         rec = iotie.recorded_run(tf, str(ck.work / f"rec{ci}"), hist, op, auto, other_fs=other)
         # old / new are the LOGICAL contents (what the database answers), not what the file happened to hold: a row of an
         # earlier, completed operation that never reached the file is a lost point
@@ -42,6 +43,9 @@ def main(tier, seed):
         kinds[kind] = kinds.get(kind, 0) + n + 1
         obs = []
         for k in range(n + 1):
+            if kind == "update_newest_big" and not (k % 23 == 0 or k > n - 70):
+                obs.append(None)          # a long schedule (six calls per row): every 23rd boundary and the last seventy
+                continue
             hard = (tier == "thorough" or ci < 3) and k % 5 == 2
             r = iotie.crash_run(tf, str(ck.work / f"cr{ci}_{k}"), hist, op, k, auto, hard=hard, other_fs=other)
             hard_checked += hard
@@ -50,14 +54,14 @@ def main(tier, seed):
             ok_file = prefix_ok(r["state"], rec["before"], rec["after"])
             ok_lib = not isinstance(r["lib_state"], tuple) and prefix_ok(r["lib_state"], rec["before"], rec["after"])
             if not (ok_file and ok_lib) and len(direct_bad) < 4:
-                direct_bad.append({"kind": "failing-input", "history": hist, "op": op, "auto_index": auto, "crash_before_call": k,
+                direct_bad.append({"kind": "failing-input", "history": hist, "op": op, "auto_index": auto, "crash_before_call": k, "database_file_has_a_second_hard_link": iotie.HARDLINK, "temp_dir_on_other_filesystem": other,
                                    "call": list(rec["events"][k][1:3]) if k < n else "end",
                                    "calls_of_op": [f"{t}.{c}" for _, t, c, _ in rec["events"]],
                                    "contents_before_op": rec["before"], "contents_after_op": rec["after"],
                                    "file_decodes_to": r["state"], "reopened_database_holds": r["lib_state"], "files_left": r["left"],
                                    "why": "file left by the crash is neither the old nor the new contents" if not ok_file
                                           else "reopening the database after the crash does not give the old or the new contents"})
-        if kind != "insert_big_rows":        # (its 70 KiB of text is checked directly above; as Coq literals it would dominate the run time)
+        if kind not in ("insert_big_rows", "update_newest_big"):        # (its 70 KiB of text is checked directly above; as Coq literals it would dominate the run time)
             coq_cases.append((auto, hist, op, obs))
     # tie: the observed sequence of file contents must walk monotonically through the model's crash states
     f = ck.work / "cases_c12.v"
